@@ -35,8 +35,11 @@ def run(tier):
 
     ck = Check("C08", tier)
     ck.assumptions += ASSUMPTIONS
-    br = common.build("C08", models=("lang", "blockstring", "parser"))
-    ck.proofs(br)
+    from . import cprinter
+    ck.assumptions += cprinter.ASSUMPTIONS
+    br = common.build("C08", models=("lang", "blockstring", "parser", "printer"),
+                      extra_targets=("theories/Properties/C08printer.vo",))
+    ck.proofs(br, extra_files=("C08printer",))
     m = Model() if br.ok else None
     quick = tier == "quick"
     rng = ck.rng
@@ -215,6 +218,11 @@ def run(tier):
         ck.rule = rule1 + " (f) parser/unparse model correspondence: see coverage.parser_rule"
     ck.samples.append({"string": strs[len(strs) // 2]})
     ck.samples.append({"document": texts[-1][0][:200]})
+    # print_ast text vs the printer model Lang/Printer.v (text-level round trip proved)
+    rule2 = ck.rule
+    cprinter.core(ck, tier, br.ok)
+    ck.extra["printer_rule"] = ck.rule
+    ck.rule = rule2 + " (h) print_ast text vs the model Lang/Printer.v: see coverage.printer_rule"
     return ck.finish()
 
 
